@@ -215,7 +215,10 @@ def run(c, facts, tier):
                 bad.append("%s: descending range %s..%s" % (fn.key, x["min"], x["max"]))
             if x["t"] == "alt" and not x["alts"]:
                 bad.append("%s: empty alt" % fn.key)
+        builder_params = [n_ for n_, _ in fn.params if n_] if b._input_name(fn) is None else []
         for o in g.opaque_nodes(fb, follow=False):
+            if builder_params and any(re.search(r"\b%s\b" % re.escape(pn_), o.get("src", "")) for pn_ in builder_params):
+                continue  # a parser builder's use of its own parameter: examined where the builder is expanded with the actual argument
             if re.search(r"\b(repeat|separated|take_while|take_until|alt)\b", o.get("src", "")):
                 bad.append("%s: unmodelled combinator use `%s`" % (fn.key, o.get("src", "")[:50]))
     c.ob("C17.dep-asserts", "find_parser", "winnow's profile-dependent assertion is unreachable", not bad, "; ".join(bad) if bad else "%d repetitions all make progress; all ranges ascending; no empty alt: ErrMode::assert (panic in debug, error in release) is never called" % nrep)
